@@ -24,11 +24,19 @@ type slotSend struct {
 }
 
 func tableOwner(c *chk.Ctx, f *ssa.Function) (string, *types.Var) {
-	switch ir.RecvNamed(f) {
+	switch ir.RecvNamed(ir.Root(f)) {
 	case c.M.Client:
 		return "client", c.M.CPending
 	case c.M.Server:
 		return "server", c.M.SCall
+	}
+	// a helper type or plain function: the side from whose methods it is reached
+	side := sideOf(c, f)
+	switch {
+	case side["server"] && !side["client"]:
+		return "server", c.M.SCall
+	case side["client"] && !side["server"]:
+		return "client", c.M.CPending
 	}
 	return "", nil
 }
@@ -317,10 +325,9 @@ func ruleTokenWrite(c *chk.Ctx, owner string) {
 		}
 		c.Pass("TOKEN.write", f, owner+" slot write", s.send.Pos(), "under %s: id looked up in %s (hit), removed, then the looked-up entry's slot written once, with no release in between", lock, s.table.Name())
 	}
-	want := 3
-	if owner == "server" {
-		want = 2
-	}
+	// non-vacuity only: the delivery of a reply and the context watcher both write slots (a
+	// removed entry that is not completed is TOKEN.take's business)
+	want := 2
 	if n < want {
 		c.Undecided("TOKEN.write", nil, owner+" slot writes", 0, "found %d slot writes for the %s (confirmed by hand: %d)", n, owner, want)
 	}
@@ -441,58 +448,80 @@ func ruleTokenKeyed(c *chk.Ctx, owner string) {
 		}
 		key := pres[0].key
 		inbound := keyMessage(c, key)
-		msg := ir.NormCell(s.send.X)
-		ok := false
-		why := ""
-		// a message built by a private constructor: look at the message it allocates, reading its
-		// parameters as the arguments of this call
-		var viaCall *ssa.Call
-		if call, isCall := msg.(*ssa.Call); isCall {
-			if g := call.Call.StaticCallee(); g != nil && c.P.InRepo[g] && !ir.Exported(g) {
-				if rets := ir.Returns(g); len(rets) == 1 && len(rets[0].Results) == 1 {
-					if al2, isAl := ir.NormCell(ir.ReturnResult(rets[0], 0)).(*ssa.Alloc); isAl {
-						msg, viaCall = al2, call
-					}
-				}
-			}
-		}
-		norm := func(v ssa.Value) ssa.Value {
+		// the message sent may be chosen among several (a phi): every candidate is judged
+		var cands []ssa.Value
+		var expandMsg func(v ssa.Value, d int)
+		expandMsg = func(v ssa.Value, d int) {
 			v = ir.NormCell(v)
-			if prm, isP := v.(*ssa.Parameter); isP && viaCall != nil && prm.Parent() == viaCall.Call.StaticCallee() {
-				for i, q := range prm.Parent().Params {
-					if q == prm && i < len(viaCall.Call.Args) {
-						return ir.NormCell(viaCall.Call.Args[i])
-					}
+			if phi, isPhi := v.(*ssa.Phi); isPhi && d < 3 {
+				for _, e := range phi.Edges {
+					expandMsg(e, d+1)
 				}
+				return
 			}
-			return v
+			cands = append(cands, v)
 		}
-		if inbound != nil && msg == inbound {
-			ok, why = true, "the message delivered is the inbound message whose id produced the lookup key"
-		} else if al, isAlloc := msg.(*ssa.Alloc); isAlloc {
-			// fresh message: its ID must be the key, or the inbound message's ID
-			for _, ref := range *al.Referrers() {
-				fa, isFA := ref.(*ssa.FieldAddr)
-				if !isFA || ir.FieldVar(fa) != c.M.JID {
-					continue
-				}
-				for _, r2 := range *fa.Referrers() {
-					st, isSt := r2.(*ssa.Store)
-					if !isSt {
-						continue
-					}
-					v := st.Val
-					if cv, isC := v.(*ssa.Convert); isC && norm(cv.X) == key {
-						ok, why = true, "fresh message whose ID is the lookup key"
-					}
-					if u, isU := v.(*ssa.UnOp); isU && inbound != nil {
-						if fa2, isFA2 := u.X.(*ssa.FieldAddr); isFA2 && ir.FieldVar(fa2) == c.M.JID && ir.NormCell(fa2.X) == inbound {
-							ok, why = true, "fresh message carrying the inbound message's ID, from which the lookup key was computed"
+		expandMsg(s.send.X, 0)
+		allOK, whyAll := len(cands) > 0, ""
+		for _, msg := range cands {
+			ok := false
+			why := ""
+			// a message built by a private constructor: look at the message it allocates, reading its
+			// parameters as the arguments of this call
+			var viaCall *ssa.Call
+			if call, isCall := msg.(*ssa.Call); isCall {
+				if g := call.Call.StaticCallee(); g != nil && c.P.InRepo[g] && !ir.Exported(g) {
+					if rets := ir.Returns(g); len(rets) == 1 && len(rets[0].Results) == 1 {
+						if al2, isAl := ir.NormCell(ir.ReturnResult(rets[0], 0)).(*ssa.Alloc); isAl {
+							msg, viaCall = al2, call
 						}
 					}
 				}
 			}
+			norm := func(v ssa.Value) ssa.Value {
+				v = ir.NormCell(v)
+				if prm, isP := v.(*ssa.Parameter); isP && viaCall != nil && prm.Parent() == viaCall.Call.StaticCallee() {
+					for i, q := range prm.Parent().Params {
+						if q == prm && i < len(viaCall.Call.Args) {
+							return ir.NormCell(viaCall.Call.Args[i])
+						}
+					}
+				}
+				return v
+			}
+			if inbound != nil && msg == inbound {
+				ok, why = true, "the message delivered is the inbound message whose id produced the lookup key"
+			} else if al, isAlloc := msg.(*ssa.Alloc); isAlloc {
+				// fresh message: its ID must be the key, or the inbound message's ID
+				for _, ref := range *al.Referrers() {
+					fa, isFA := ref.(*ssa.FieldAddr)
+					if !isFA || ir.FieldVar(fa) != c.M.JID {
+						continue
+					}
+					for _, r2 := range *fa.Referrers() {
+						st, isSt := r2.(*ssa.Store)
+						if !isSt {
+							continue
+						}
+						v := st.Val
+						if cv, isC := v.(*ssa.Convert); isC && norm(cv.X) == key {
+							ok, why = true, "fresh message whose ID is the lookup key"
+						}
+						if u, isU := v.(*ssa.UnOp); isU && inbound != nil {
+							if fa2, isFA2 := u.X.(*ssa.FieldAddr); isFA2 && ir.FieldVar(fa2) == c.M.JID && ir.NormCell(fa2.X) == inbound {
+								ok, why = true, "fresh message carrying the inbound message's ID, from which the lookup key was computed"
+							}
+						}
+					}
+				}
+			}
+			if !ok {
+				allOK = false
+			} else if whyAll == "" {
+				whyAll = why
+			}
 		}
+		ok, why := allOK, whyAll
 		c.Check(ok, "TOKEN.keyed", f, owner+" slot message id", s.send.Pos(), why+": the id check in Response.wait cannot fail",
 			"the message written into the slot does not carry the id under which the Response was registered: Response.wait would panic with 'Mismatched response ID'")
 	}
